@@ -58,6 +58,7 @@ KindStr(k, v, s) == IF k = "wait" THEN "wait:" \o ToString(v) \o ":" \o ToString
 IdxOf(q, id) == CHOOSE j \in 1..Len(q) : q[j].id = id
 HasId(q, id) == \E j \in 1..Len(q) : q[j].id = id
 Flag(name) == bad' = bad \cup {name}
+Frozen == UNCHANGED <<wgOf, st, cur, n, outV, outS, internal, bbuf, vq, sq, sent, aceOut, reached, passed>>
 
 \* ----------------------------------------------------- unlogged CU steps
 EagerMem(w) == st[w] = "Running" /\ cur[w].k \in {"vmem", "smem"}
@@ -94,6 +95,10 @@ TIssue ==
         THEN \* an instruction after the barrier while a sibling has neither reached it nor finished
              /\ Flag("BarrierOrder")
              /\ UNCHANGED <<wgOf, st, cur, n, outV, outS, internal, bbuf, vq, sq, sent, aceOut, reached, passed, curId>>
+        ELSE IF st[w] \in {"Running", "Done"}
+        THEN \* a second instruction while the previous one still occupies its unit / is being evaluated, or after s_endpgm
+             /\ Flag("IssueInOrder")
+             /\ UNCHANGED <<wgOf, st, cur, n, outV, outS, internal, bbuf, vq, sq, sent, aceOut, reached, passed, curId>>
         ELSE IF ~FollowsRef(w, i)
         THEN \* not the instruction the reference executed at this point of the wavefront's path
              /\ Flag("PathEqualsReference")
@@ -119,11 +124,13 @@ TInstEnd ==
        [] Ev.k = "vmem" ->
             \* the task of a memory instruction ends with its last response (or at once if it made no request)
             IF HasId(vq, Ev.id)
-            THEN Ev.id \notin reqs /\ MemReturnV(IdxOf(vq, Ev.id))
+            THEN IF Ev.id \notin reqs THEN MemReturnV(IdxOf(vq, Ev.id))
+                 ELSE Flag("MemInstEndsAfterLastResponse") /\ Frozen
             ELSE UNCHANGED vars
        [] Ev.k = "smem" ->
             IF HasId(sq, Ev.id)
-            THEN Ev.id \notin reqs /\ MemReturnS(IdxOf(sq, Ev.id))
+            THEN IF Ev.id \notin reqs THEN MemReturnS(IdxOf(sq, Ev.id))
+                 ELSE Flag("MemInstEndsAfterLastResponse") /\ Frozen
             ELSE UNCHANGED vars
        [] OTHER -> FALSE
   /\ UNCHANGED <<curId, ref, reqs, pendEnd, pendDone>>
@@ -146,7 +153,6 @@ TMemRsp ==
 Ending(w) == w \in internal /\ cur[w].k = "end"
 g_owed(w) == wgOf[w] \in pendDone   \* a repeated completion event is only legitimate while the message is owed
 IsLast(w) == \A x \in Others(w) : st[x] = "Done"
-Frozen == UNCHANGED <<wgOf, st, cur, n, outV, outS, internal, bbuf, vq, sq, sent, aceOut, reached, passed>>
 
 TWfEnd ==
   /\ Is("WfEnd") /\ Ev.w \in Wfs
@@ -252,6 +258,8 @@ CompletionAfterLastInv == "CompletionAfterLast" \notin bad
 NoHangInv              == "NoHang" \notin bad
 ValuesInv              == "ValuesEqualReference" \notin bad
 PathInv                == "PathEqualsReference" \notin bad
+IssueInOrderInv        == "IssueInOrder" \notin bad
+MemInstEndInv          == "MemInstEndsAfterLastResponse" \notin bad
 NoGroups == <<>>
 
 Mark == HWNote(l)                 \* CONSTRAINT: records progress
